@@ -1,5 +1,6 @@
+import QuicModel.Drivers.Recovery
 import QuicModel.Drivers.VarInt
 namespace Quic.Drivers
 def all : List Component :=
-  VarInt.components
+  Recovery.components ++ VarInt.components
 end Quic.Drivers
